@@ -44,6 +44,7 @@ type responseWriter struct {
 	size        int          // The written size of the response.
 	beforeFuncs []BeforeFunc // The list of functions to be called before written to the response.
 
+	beforeOnce      sync.Once
 	writeHeaderOnce sync.Once
 }
 
@@ -65,12 +66,15 @@ func (w *responseWriter) callBefore() {
 }
 
 func (w *responseWriter) WriteHeader(s int) {
+	// The functions run once and on their own: when one of them panics, the status
+	// has not been sent and can still be sent, e.g. by the Recovery middleware.
+	w.beforeOnce.Do(w.callBefore)
+
 	w.writeHeaderOnce.Do(func() {
 		if w.Written() {
 			return
 		}
 
-		w.callBefore()
 		w.ResponseWriter.WriteHeader(s)
 		atomic.StoreInt32(&w.status, int32(s))
 	})
